@@ -5,6 +5,7 @@ domain  : datatype trees (depth <= 3) x candidate catalogues (every JSON kind at
           NaN/Infinity) x previous values (none, same, shorter, longer, other)
 oracle  : vf.refmodel (three-valued status + 'denotes' relation), totality, idempotence
 """
+import json
 import math
 import traceback
 
@@ -40,15 +41,51 @@ def frappy_frame(exc):
     return 'outside-frappy'
 
 
+def has_none(x):
+    if isinstance(x, dict):
+        return any(has_none(v) for v in x.values())
+    if isinstance(x, (list, tuple)):
+        return any(has_none(v) for v in x)
+    return x is None
+
+
 def observe(dt, x, prev, side):
     from frappy.errors import BadValueError
     try:
-        v = dt.import_value(x) if side == 'wire' else x
+        v = dt.import_value(x) if side == 'wire' else specs.materialise(x)
         return ('ok', dt.validate(v, prev))
     except BadValueError as e:
         return ('bad', type(e).__name__)
     except Exception as e:   # noqa - totality clause
         return ('exc', type(e).__name__, frappy_frame(e))
+
+
+def check_call(ctx, T, dt, x, why, case):
+    """__call__, the driver-side conversion (no range check documented): total, of the right shape and exportable"""
+    from frappy.errors import BadValueError
+    try:
+        called = dt(specs.materialise(x))
+        ctx.ok('call-total')
+        # what the driver-side conversion returns is what gets cached: apart from the range (not checked here,
+        # as documented) it must be a value of the type, i.e. validate may refuse it with a range error only
+        back = observe(dt, called, None, 'drv')
+        if back[0] == 'bad' and back[1] != 'RangeError' or back[0] == 'exc':
+            ctx.finding(f'call:result-not-of-the-type:{T["k"]}:{back[1]}:{why or "valid"}', case, f'{x!r} -> {called!r}, validate: {back!r}')
+        else:
+            ctx.ok('call-shape')
+        # ... and it is sent in updates and replies: it must have a strict JSON form (no NaN / Infinity tokens)
+        try:
+            # (None for an optional struct member means "left out" - meant for command arguments; such a struct is
+            # incomplete as a parameter value by design, not looked at here)
+            if not has_none(x):
+                json.dumps(dt.export_value(called), allow_nan=False)
+                ctx.ok('call-result-exportable')
+        except Exception as e:   # noqa
+            ctx.finding(f'call:result-not-exportable:{T["k"]}:{type(e).__name__}:{why or "valid"}', case, f'{x!r} -> {called!r}: {e!r}'[:300])
+    except BadValueError:
+        pass
+    except Exception as e:  # noqa
+        ctx.finding(f'total:call:{type(e).__name__}:{frappy_frame(e)}:{why or T["k"]}', case, repr(e))
 
 
 def evaluate(ctx, T, dt, side, label, x, prevlabel, prev_plain, prev):
@@ -62,6 +99,8 @@ def evaluate(ctx, T, dt, side, label, x, prevlabel, prev_plain, prev):
         ctx.nt((specs.tojson(T), side, specs.tojson(x), specs.tojson(prev_plain)))
     ctx.sample({'T': T, 'side': side, 'candidate': label, 'x': x, 'prev': prev_plain, 'status': verdict,
                 'outcome': list(out[:2]) if out[0] != 'ok' else ['ok', rm.canon(out[1])]}, every=4999)
+    if side == 'drv' and prevlabel == 'none':
+        check_call(ctx, T, dt, x, why, case)
     if out[0] == 'exc':
         ctx.finding(f'total:{side}:{out[1]}:{out[2]}:{why or T["k"]}', case, f'{out} for {x!r}')
         return
@@ -91,23 +130,6 @@ def evaluate(ctx, T, dt, side, label, x, prevlabel, prev_plain, prev):
             ctx.finding(f'idem:{side}:{T["k"]}:{again[0]}', case, f'{x!r} -> {out[1]!r} -> {again!r}')
     else:
         ctx.ok('idempotent')
-    # __call__ (no range check documented): total and of the right shape
-    if side == 'drv':
-        from frappy.errors import BadValueError
-        try:
-            called = dt(x)
-            ctx.ok('call-total')
-            # what the driver-side conversion returns is what gets cached: apart from the range (not checked here,
-            # as documented) it must be a value of the type, i.e. validate may refuse it with a range error only
-            back = observe(dt, called, None, 'drv')
-            if back[0] == 'bad' and back[1] != 'RangeError' or back[0] == 'exc':
-                ctx.finding(f'call:result-not-of-the-type:{T["k"]}:{back[1]}:{why or "valid"}', case, f'{x!r} -> {called!r}, validate: {back!r}')
-            else:
-                ctx.ok('call-shape')
-        except BadValueError:
-            pass
-        except Exception as e:  # noqa
-            ctx.finding(f'total:call:{type(e).__name__}:{frappy_frame(e)}:{why or T["k"]}', case, repr(e))
 
 
 def run_tree(ctx, T, vbase, vother):
